@@ -10,7 +10,7 @@ from ..core import FAILED
 
 DECIDING = ["O1:tsirelson-certificate", "O2:quantum=NPA1", "O2:cl<=quantum", "O2:grothendieck", "O3:classical=bruteforce", "O3:xor=converted",
             "O3:converted-predicate", "O4:repetition-power", "O5:bell=tsirelson", "O5:bell>=deterministic", "O5:bell-affine-relation",
-            "O5:bell>=explicit-strategy", "O6:constructor-rejects"]
+            "O5:bell>=explicit-strategy", "O5:bell=quantum-maximum", "O6:constructor-rejects"]
 RULE = ("XOR games with question sets 1..4 x 1..4 (rectangular included), uniform / biased / degenerate (zero-probability rows) distributions, random "
         "0/1 predicates, tol given or defaulted, reps 1..3; Bell functionals with two settings: pure correlators, with marginals, 0/1-valued outcomes; "
         "signature (monitor, X, Y, distribution kind) resp. (monitor, functional kind); non-trivial when the game has a quantum-classical gap or is rectangular")
@@ -181,6 +181,14 @@ def _run_bell(ctx, spec, rng):
         j, a, b, av, bv, name = [[1, 1], [1, -1]], [0, 0], [0, 0], pm, pm, "chsh"
     elif r == 1:  # Clauser-Horne, 0/1-valued outcomes
         j, a, b, av, bv, name = [[1, 1], [1, -1]], [-1, 0], [-1, 0], [1.0, 0.0], [1.0, 0.0], "CH"
+    elif r % 4 == 3:  # integer coefficients with exact zeros, marginal terms, either outcome labelling
+        j = rng.integers(-2, 3, size=(2, 2)).astype(float)
+        j[int(rng.integers(0, 2)), int(rng.integers(0, 2))] = 0.0
+        if rng.random() < 0.5:
+            j[0, int(rng.integers(0, 2))] = 0.0
+        a, b = rng.integers(-1, 2, size=2).astype(float), rng.integers(-1, 2, size=2).astype(float)
+        av, bv = (pm, pm) if r % 8 == 3 else ([1.0, 0.0], [1.0, 0.0])
+        name = "sparse-integer+marginals" + ("" if r % 8 == 3 else "-01")
     elif r % 3 == 2:
         j = rng.integers(-3, 4, size=(2, 2)).astype(float) if r % 2 else rng.normal(size=(2, 2))
         a, b, av, bv, name = [0, 0], [0, 0], pm, pm, "correlator"
@@ -203,6 +211,10 @@ def _run_bell(ctx, spec, rng):
     expl = _bell_explicit(rng, j, a, b, av, bv, 200 if ctx.tier == "quick" else 600)
     ctx.check("O5:bell>=explicit-strategy", val >= expl - TOLB * scale, dev=max(0.0, expl - val) / scale, tol=TOLB, sig=sig, mech="bell_inequality_max:below-explicit-quantum-strategy",
               detail=dict(det, explicit=expl))
+    # exact quantum maximum for two dichotomic settings per party (Jordan's lemma; NumPy only)
+    qmax = certs.bell_222_max(j, a, b, av, bv, 60 if ctx.tier == "quick" else 90)
+    ctx.check("O5:bell=quantum-maximum", None, dev=abs(val - qmax) / scale, tol=1e-3, sig=sig, nt=True, mech="bell_inequality_max:differs-from-quantum-maximum" + ("[above]" if val > qmax else "[below]"),
+              detail=dict(det, quantum_maximum=qmax))
     if name in ("chsh", "correlator"):
         ts = certs.tsirelson_2x2(j)
         ctx.check("O5:bell=tsirelson", None, dev=abs(val - ts) / scale, tol=TOLB, sig=sig, mech="bell_inequality_max:differs-from-tsirelson", detail=dict(det, tsirelson=ts))
@@ -214,8 +226,8 @@ def _run_bell(ctx, spec, rng):
     # affine relation between general two-valued outcomes and +-1-valued outcomes
     al_a, be_a = (av[0] + av[1]) / 2, (av[0] - av[1]) / 2
     al_b, be_b = (bv[0] + bv[1]) / 2, (bv[0] - bv[1]) / 2
-    if name in ("01-valued", "CH", "marginals"):
-        if name == "marginals":  # rewrite +-1 outcomes as outcomes (2, 0): A' = 1 + A  =>  A = A' - 1
+    if name in ("01-valued", "CH", "marginals") or name.startswith("sparse"):
+        if av[1] == -1.0:  # rewrite +-1 outcomes as outcomes (2, 0): A' = 1 + A  =>  A = A' - 1
             av2, bv2 = [2.0, 0.0], [2.0, 0.0]
             j2 = j
             a2 = a - j.sum(axis=1)
